@@ -30,11 +30,19 @@ func IDsOf(apps []fakeredis.App) []string {
 	return out
 }
 
+// groupOfOffset returns the source transaction p lies inside of, if a member write that
+// reaches the target still follows p in it.  (With a database filter the tail of a transaction
+// may be withheld entirely; a position in front of such a tail splits nothing.)
 func (e *Env) groupOfOffset(p int64) *Group {
 	for i := range e.Groups {
 		g := &e.Groups[i]
 		if g.MultiEnd <= p && p < g.ExecEnd {
-			return g
+			for _, k := range g.KeptEnds {
+				if k > p {
+					return g
+				}
+			}
+			return nil
 		}
 	}
 	return nil
@@ -228,14 +236,20 @@ func (e *Env) CheckAtomicity(prior []string, l *RunLog) []Finding {
 			add("group-repeated-after-restart", fmt.Sprintf("source group %d executed again although %d of its commands had been executed before the restart", g.Idx, nprior))
 			return fs
 		}
+		// the position must cover the group: its EXEC, or — when a database filter withholds the
+		// tail of the transaction — at least its last member that reaches the target
+		need := g.ExecEnd
+		if len(e.C.DbBlacklist) > 0 && len(g.KeptEnds) > 0 {
+			need = g.KeptEnds[len(g.KeptEnds)-1]
+		}
 		ok := false
 		for _, cw := range cps {
-			if cw.Txn == blk && cw.Value >= g.ExecEnd {
+			if cw.Txn == blk && cw.Value >= need {
 				ok = true
 			}
 		}
 		if !ok {
-			add("group-block-without-covering-position", fmt.Sprintf("target block %d holding source group %d carries no resume position ≥ %d", blk, g.Idx, g.ExecEnd))
+			add("group-block-without-covering-position", fmt.Sprintf("target block %d holding source group %d carries no resume position ≥ %d", blk, g.Idx, need))
 			return fs
 		}
 	}
